@@ -177,6 +177,38 @@ func pipelines(quick bool, emit func(pscenario)) {
 		"numbers(n).map(x->x*2).merge(numbers(n).map(x->(if x=1 then throw(\"e\") else x)),(a,b)->a<b)",
 		"numbers(n).map(x->slow(x)*2+1).merge(numbers(3),(a,b)->a<b)",
 	}
+	// every error path of the goroutine-starting operations: arguments rejected at every position of
+	// the validation, consumers / comparators / stages that fail or return the wrong type
+	misuse := []string{
+		"numbers(n).multiUse({a:l->l.size(),b:3})",
+		"numbers(n).multiUse({a:l->l.sum(),b:l->l.size(),c:(x,y)->x})",
+		"numbers(n).multiUse({a:3,b:l->l.size()})",
+		"numbers(n).multiUse({a:(x,y)->x,b:l->l.size()})",
+		"numbers(n).multiUse({})",
+		"numbers(n).multiUse(3)",
+		"numbers(n).multiUse({a:l->l.size(),b:l->throw(\"e\")})",
+		"numbers(n).multiUse({a:l->throw(\"e\"),b:l->l.size()})",
+		"numbers(n).multiUse({a:l->l.first(),b:l->l.map(x->throw(\"e\")).sum()})",
+		"numbers(n).multiUse({a:l->l.size(),b:l->l.size()+l.sum()})",
+		"numbers(n).multiUse({a:l->l.size(),b:l->l.map(x->x)})",
+		"numbers(n).map(x->if x=1 then throw(\"e\") else x).multiUse({a:l->l.size(),b:l->l.sum()})",
+		"numbers(n).merge(3,(a,b)->a<b).size()",
+		"numbers(n).merge(numbers(n),a->a).size()",
+		"numbers(n).merge(numbers(n),(a,b)->a).size()",
+		"numbers(n).merge(numbers(n),(a,b)->if a=1 then throw(\"e\") else a<b).size()",
+		"numbers(n).merge(numbers(n).map(x->if x=1 then throw(\"e\") else x),(a,b)->a<b).size()",
+		"numbers(n).merge(numbers(n),(a,b)->a<b).merge(3,(a,b)->a<b).size()",
+		"numbers(n).map((x,y)->x).size()",
+		"numbers(n).accept(x->x).size()",
+	}
+	for _, src := range misuse {
+		for _, n := range []int{0, 1, 3} {
+			emit(pscenario{Src: src, N: n, W: 2})
+		}
+	}
+	for _, src := range []string{"numbers(n).map(x->slow(x)).accept(x->x).size()", "numbers(n).map(x->slow(x)).multiUse({a:l->l.size(),b:3})", "numbers(n).accept(x->if x<12 then slow(x)>=0 else x).size()"} {
+		emit(pscenario{Src: src, N: 14, W: 2})
+	}
 	sizes := []int{13, 15}
 	if !quick {
 		sizes = []int{0, 1, 12, 13, 14, 15, 16}
@@ -280,7 +312,7 @@ func runPipelines(ctx *bex.Ctx) {
 			}
 		}
 	})
-	ctx.SpaceDone("9 sources (parallel map/accept, failing elements in both phases, merge) x 14 consumers (first, top, present, indexWhere, single, ~, size, reduce, multiUse) x sizes around the switch to parallel execution; all schedules; W=2")
+	ctx.SpaceDone("23 misuse / error-path programs of multiUse, merge, map, accept (arguments rejected at every position of the validation, failing or wrongly typed consumers, comparators and stages) x sizes 0,1,3; 9 sources (parallel map/accept, failing elements in both phases, merge) x 14 consumers (first, top, present, indexWhere, single, ~, size, reduce, multiUse) x sizes around the switch to parallel execution; all schedules; W=2")
 }
 
 func copyMap(m map[string]any) map[string]any {
